@@ -503,6 +503,12 @@ func (e *examiner) repr(r gens.Repr) {
 				res.one, res.flag = n, true
 			}
 		})
+		for _, g := range gr {
+			// a selected null is the nil gen.Node: FirstNode returns it as it returns nothing
+			if fn.pv == nil && !fn.flag && isNull(g) {
+				fn.flag = true
+			}
+		}
 	}
 	if len(gr) == 0 && len(e.gs) == 0 && !has.flag && !ff.flag && len(loc0.paths) == 0 && len(walk.paths) == 0 && len(gn.vals) == 0 && !fn.flag &&
 		has.pv == nil && ff.pv == nil && loc0.pv == nil && walk.pv == nil && gn.pv == nil && fn.pv == nil {
@@ -536,6 +542,12 @@ func (e *examiner) repr(r gens.Repr) {
 			// cases the two calls may legitimately pick different members.
 			f1 := guard(c, func(res *evalRes) { res.one = x.First(r.Value) })
 			f1.flag = f1.one != nil
+			for _, g := range gr {
+				// a selected null: First returns nil for it as it does for nothing
+				if f1.one == nil && isNull(g) {
+					f1.flag = true
+				}
+			}
 			if n := len(e.out); n == 0 || e.out[n-1].eval != "First" || e.out[n-1].repr != r.Name {
 				e.first("First", r.Name, f1, gr, true)
 			}
@@ -578,6 +590,18 @@ func (e *examiner) repr(r gens.Repr) {
 }
 
 // first checks FirstFound / FirstNode against Get on the same representation.
+func isNull(v any) bool {
+	if v == nil {
+		return true
+	}
+	rv := reflect.ValueOf(v)
+	switch rv.Kind() {
+	case reflect.Ptr, reflect.Interface, reflect.Map, reflect.Slice:
+		return rv.IsNil()
+	}
+	return false
+}
+
 func (e *examiner) first(eval, repr string, ff evalRes, gr []any, identity bool) {
 	switch {
 	case ff.pv != nil:
